@@ -141,6 +141,24 @@ def standin_scipy(tier, seed):
                     break
             if len(samples) < 2:
                 samples.append(dict(model=f"{origin} {kind}", ids=ip._indices, first=str(ip[ids[0]])[:120]))
+            if origin == "fitted" and not use_jac and kind == kinds[0][0]:
+                # more than one worker: still one set of parameters per identifier, each identifier keeping ITS OWN estimate (the cohort
+                # has unequal visit counts and is not listed in sorted order; low-digit differences between workers are a known
+                # effect recorded under C07, another individual's parameters are units away)
+                try:
+                    with quiet():
+                        ip2 = model.personalize(data, "scipy_minimize", seed=seed, progress_bar=False, n_jobs=2)
+                except Exception as e:
+                    violations.append(dict(key=f"{what} with n_jobs=2: raised {type(e).__name__}: {str(e)[:100]}"))
+                    continue
+                evals += 1
+                if check_alignment(ip2, ids, model, what + " with n_jobs=2", violations):
+                    def flat(d_):
+                        return [x for v in d_.values() for x in (v if isinstance(v, list) else [v])]
+                    moved = [sid for sid in ids if any(abs(x - y) > 0.05 + 0.01 * abs(x) for x, y in zip(flat(ip[sid]), flat(ip2[sid])))]
+                    if moved:
+                        violations.append(dict(key=f"{what}: with n_jobs=2 identifiers receive parameters far from their own n_jobs=1 estimate (another individual's?)",
+                                               individuals=moved, one_worker=str(ip[moved[0]]), two_workers=str(ip2[moved[0]])))
     uniq = {v["key"]: v for v in violations}
     return dict(evaluations=evals, distinct_nontrivial=len(distinct),
                 rule="one evaluation = one personalisation (alignment, shapes, finiteness) or one subject's objective comparison; distinct = (model kind, fitted|loaded)",
